@@ -112,6 +112,10 @@ func (p *parser) endsInANumber(u *Url, input string) bool {
 		parts = parts[0 : len(parts)-1]
 	}
 	last := parts[len(parts)-1]
+	if last == "" {
+		// an empty label is not a number; do not report it through the IPv4 number parser
+		return false
+	}
 	if last != "" && containsOnly(last, ASCIIDigit) {
 		return true
 	}
